@@ -12,8 +12,18 @@ From Coq Require Import List Arith Bool.
 From LV Require Import Cfg.Grammar Cfg.Analysis Earley.Spec.
 Import ListNotations.
 
-Definition item_eq_dec : forall x y : item, {x = y} + {x <> y}.
-Proof. decide equality; [apply Nat.eq_dec | apply Nat.eq_dec | apply rule_eq_dec]. Defined.
+(* Item.__eq__ (rule, ptr, start) and set membership, as boolean functions (fast under vm_compute) *)
+Fixpoint syms_eqb (a b : list symbol) : bool :=
+  match a, b with
+  | [], [] => true
+  | x :: a', y :: b' => symbol_eqb x y && syms_eqb a' b'
+  | _, _ => false
+  end.
+Definition rule_eqb (r1 r2 : rule) : bool := Nat.eqb (lhs r1) (lhs r2) && syms_eqb (rhs r1) (rhs r2).
+Definition item_eqb (x y : item) : bool :=
+  Nat.eqb (dot x) (dot y) && Nat.eqb (orig x) (orig y) && rule_eqb (irule x) (irule y).
+Definition mem (x : item) (s : list item) : bool := existsb (item_eqb x) s.
+Definition nat_mem (a : nat) (s : list nat) : bool := existsb (Nat.eqb a) s.
 
 (* Item.expect: the symbol after the dot; None = is_complete (ptr == len(expansion); ptr never exceeds it) *)
 Definition expect (x : item) : option symbol := nth_error (rhs (irule x)) (dot x).
@@ -21,9 +31,9 @@ Definition expect (x : item) : option symbol := nth_error (rhs (irule x)) (dot x
 Definition advance (x : item) : item := mkItem (irule x) (S (dot x)) (orig x).
 (* Set.add *)
 Definition set_add (x : item) (s : list item) : list item :=
-  if in_dec item_eq_dec x s then s else s ++ [x].
+  if mem x s then s else s ++ [x].
 Definition nat_add (a : nat) (s : list nat) : list nat :=
-  if in_dec Nat.eq_dec a s then s else s ++ [a].
+  if nat_mem a s then s else s ++ [a].
 
 Definition expects_nt (a : nat) (x : item) : bool :=
   match expect x with Some (NT b) => Nat.eqb a b | _ => false end.
@@ -36,7 +46,7 @@ Record pc_state := mkPC { pc_col : list item; pc_work : list item; pc_scan : lis
 Definition add_new (st : pc_state) (x : item) : pc_state :=
   match expect x with
   | Some (T _) => mkPC (pc_col st) (pc_work st) (set_add x (pc_scan st)) (pc_held st)
-  | _ => if in_dec item_eq_dec x (pc_col st) then st
+  | _ => if mem x (pc_col st) then st
          else mkPC (pc_col st ++ [x]) (x :: pc_work st) (pc_scan st) (pc_held st)
   end.
 
@@ -59,7 +69,7 @@ Section Alg.
         fold_left add_new (map advance originators) st1
     | Some (NT a) =>                                    (* the predictor *)
         let new_items := map (fun r => mkItem r 0 i) (predictions a)
-                         ++ (if in_dec Nat.eq_dec a (pc_held st) then [advance x] else []) in
+                         ++ (if nat_mem a (pc_held st) then [advance x] else []) in
         fold_left add_new new_items st
     | Some (T _) => st                                  (* neither branch applies *)
     end.
@@ -149,9 +159,22 @@ Section Alg.
     flat_map (fun x => match expect x with Some (T t) => [t] | _ => [] end) (last_to_scan r).
 End Alg.
 
+(* Parser.__init__:  for rule in parser_conf.rules: if rule.origin not in self.predictions:
+     self.predictions[rule.origin] = [x.rule for x in analysis.expand_rule(rule.origin)]
+   The table is computed once per grammar; a key without rules cannot occur in lark (GrammarError "Using an
+   undefined rule"), the model then computes the closure on the fly. *)
+Definition pred_table (G : grammar) : list (nat * list rule) :=
+  fold_left (fun tbl r => if existsb (fun p => Nat.eqb (fst p) (lhs r)) tbl then tbl
+                          else tbl ++ [(lhs r, Analysis.predictions G (lhs r))]) G [].
+Definition pred_lookup (G : grammar) (tbl : list (nat * list rule)) (a : nat) : list rule :=
+  match find (fun p => Nat.eqb (fst p) a) tbl with
+  | Some p => snd p
+  | None => Analysis.predictions G a
+  end.
+
 (* lark's basic-lexer configuration: tokens are terminal ids, term_matcher compares names, the prediction
    table is GrammarAnalyzer.expand_rule *)
 Definition earley_parse (G : grammar) (start : nat) (toks : list nat) : result :=
-  parse G (Analysis.predictions G) nat Nat.eqb start toks.
+  let tbl := pred_table G in parse G (pred_lookup G tbl) nat Nat.eqb start toks.
 Definition earley_accepts (G : grammar) (start : nat) (toks : list nat) : bool :=
-  accepts G (Analysis.predictions G) nat Nat.eqb start toks.
+  let tbl := pred_table G in accepts G (pred_lookup G tbl) nat Nat.eqb start toks.
